@@ -177,8 +177,8 @@ impl Run {
             .ok()
             .and_then(|s| s.parse().ok())
             .unwrap_or(match self.tier {
-                Tier::Quick => 1500,
-                Tier::Thorough => 4 * 3600,
+                Tier::Quick => 3600,
+                Tier::Thorough => 8 * 3600,
             });
         let prop = self.prop;
         std::thread::spawn(move || {
